@@ -163,11 +163,35 @@ impl Exec {
             "apply" => {
                 let m = parse_mv(toks[1]);
                 self.saved.push(full_snapshot(&ctx.board));
+                let mover = ctx.board.get(m.from_square());
+                let mut pending_msg: Option<String> = None;
                 let r = guard(|| match m.apply(&mut ctx.board) {
                     Ok(()) => "ok".into(),
                     Err(e) => format!("ERR {:?}", e).split_whitespace().take(2).collect::<Vec<_>>().join(" "),
                 });
+                // C12 decision predicate, temporal clause: after a move the en-passant target is set
+                // exactly when that move was a double pawn step, and then it is the skipped square
+                if r == "ok" {
+                    let (f, t) = (idx(m.from_square()), idx(m.to_square()));
+                    let double = matches!(m, ChessMove::Standard(_)) && mover.map(|(pc, _)| pc == Piece::Pawn).unwrap_or(false) && (f as i32 - t as i32).abs() == 16;
+                    let ept = ctx.board.peek_en_passant_target();
+                    let want: Option<usize> = if double { Some((f + t) / 2) } else { None };
+                    let got: Option<usize> = if ept.is_empty() { None } else { Some(idx(ept)) };
+                    if got != want {
+                        let msg = format!(
+                            "! C12 after {} the en-passant target is {} but {} [{}]",
+                            mv_text(&m),
+                            got.map(sqname).unwrap_or_else(|| "empty".to_string()),
+                            if double { format!("the pawn has just advanced two squares over {}", sqname((f + t) / 2)) } else { "no pawn has just advanced two squares".to_string() },
+                            snap(&ctx.board)
+                        );
+                        pending_msg = Some(msg);
+                    }
+                }
                 ctx.stack.push(m);
+                if let Some(msg) = pending_msg {
+                    self.line(&msg);
+                }
                 r
             }
             "undo" => match ctx.stack.pop() {
